@@ -168,7 +168,7 @@ class Spec:
     """
 
     def __init__(self, key, site, mode, sbuild, oracle=None, win=None, zero_ok=False,
-                 classify=None, cols=("x",)):
+                 classify=None, cols=("x",), rank=None):
         self.key = key
         self.site = site
         self.mode = mode
@@ -178,6 +178,7 @@ class Spec:
         self.zero_ok = zero_ok
         self.classify = classify
         self.cols = cols
+        self.rank = rank if rank is not None else (1 if "[" in key.split(")")[-1] else 0)   # variants lose ties for the example
         self.winT = pd.Timedelta(win[1]) if win and win[0] == "t" else None
 
 
@@ -539,7 +540,8 @@ def p_empty_first_batch(i):
 
 
 def p_all_nan_prefix(i):
-    return i.hi > 0 and all(i.col(c, r) != i.col(c, r) for r in range(i.hi) for c in i.spec.cols[:1])
+    """some checked column is NaN in every row of the (non-empty) prefix"""
+    return i.hi > 0 and any(all(i.col(c, r) != i.col(c, r) for r in range(i.hi)) for c in i.spec.cols)
 
 
 def p_nan_in_prefix(i):
@@ -617,8 +619,8 @@ def classify(spec, env, split, fail):
 # work items
 # ----------------------------------------------------------------------------------------
 
-def case_key(env, split):
-    return (env.R, len(split), env.table, env.incs or (), tuple(split))
+def case_key(spec, env, split):
+    return (env.R, len(split), spec.rank, env.table, env.incs or (), tuple(split))
 
 
 def is_nontrivial(env, split, rows):
@@ -676,7 +678,7 @@ def run_item(item):
                     out["failing_runs"] += 1
                     detail = classify(spec, env, split, r.fail)
                     sig = (r.fail.clause, spec.site, detail)
-                    ck = case_key(env, split)
+                    ck = case_key(spec, env, split)
                     cur = out["findings"].get(sig)
                     if cur is None:
                         out["findings"][sig] = [1, ck, _replay_dict(modname, spec, env, split, r.fail),
